@@ -490,5 +490,32 @@ def range_bounds_initialised(args):
     return False, "the bounds of every probe Range are computed before Range's block is entered"
 
 
+@driver
+def dropped_call_arguments(args):
+    """nothing that was asked for is silently dropped: keyword arguments of a C++ method call, a math-table function, an injected C++
+    function and a collection accessor must be refused (args: {"site": ...}; by default chosen from the obligation name)."""
+    ob = args.get("obligation", "")
+    site = args.get("site") or ("member" if "visit_Call_Member" in ob else "function" if "visit_function_ast" in ob else
+                                "injected" if "build_CPPCodeValue" in ob else "collection" if "get_collection" in ob else "all")
+    probes = {"member": ["lambda e: e.Jets('A').Select(lambda j: j.pt(scale=2))"],
+              "function": ["lambda e: e.Jets('A').Select(lambda j: sin(j.pt(), x=3))"],
+              "injected": ["lambda e: e.Jets('A').Select(lambda j: MyF(j.pt(), offset=1))"],
+              "collection": ["lambda e: e.Jets('A', calibrate=False).Select(lambda j: j.pt())"]}
+    md = {"metadata_type": "add_cpp_function", "name": "MyF", "include_files": [], "arguments": ["x"], "code": ["auto result = x;"],
+          "result_name": "result", "return_type": "double"}
+    for k, qs in probes.items():
+        if site not in (k, "all"):
+            continue
+        for q in qs:
+            try:
+                ds = _dataset().MetaData(md) if k == "injected" else _dataset()
+                info, files = translate(ds.Select(q))
+            except Exception:
+                continue
+            body = [l.strip() for l in files["query.cxx"].splitlines() if "_col" in l and "=" in l or "push_back" in l]
+            return True, "%s is translated (%s): the keyword argument is silently dropped" % (q, "; ".join(body[:2]))
+    return False, "calls with keyword arguments are refused"
+
+
 if __name__ == "__main__":
     main()
